@@ -123,8 +123,8 @@ class Map(util.BaseSection):
         assert 0 <= x <= 127
         assert 1 <= width
         assert 1 <= height
-        assert ((0 <= y + height <= 32) or
-                ((0 <= y + height <= 64) and self._gfx is not None))
+        assert 0 <= y <= 63
+        assert (y + height <= 32) or (self._gfx is not None)
         result = []
         for tile_y in range(y, y + height):
             row = bytearray()
